@@ -54,6 +54,11 @@ def make_case(seed, i):
     cfg.odd_namespaces = True
     pkg = M.gen_package(rng.next(), cfg, targets=targets)
     M.randomize_target_options(pkg, rng.fork("options"))
+    inside = rng.fork("inside")
+    for t in targets:
+        if inside.chance(0.15):
+            # an output directory inside the package directory: the tool's own writes produce events in watched directories
+            pkg.targets[t] = dict(pkg.targets[t], **{M.TARGET_KEYS[t]: "generated/" + t})
     has_versions = rng.chance(0.25)
     if has_versions:
         pkg = E.with_versions(pkg, rng.fork("v"), rng.randint(1, 2), partial=rng.chance(0.5), layout=rng.fork("vlayout").choice(["siblings", "archive"]))
@@ -76,6 +81,7 @@ def make_case(seed, i):
     kinds_main = (E.COMPATIBLE + E.PARTIAL) if has_versions else (E.COMPATIBLE + E.PARTIAL + E.FREE)
     removed_targets = {}
     toggled = []
+    added_imports = []
     for e in range(n_edits):
         r = rng.fork("edit", e)
         if e > 0 and r.fork("pause").chance(0.2):
@@ -195,6 +201,10 @@ def make_case(seed, i):
             # the package's own directory listed as a version under a second name ("../pkg"): the same directory is then
             # both the watched "." and a referenced package directory
             opts.append("drop_self_version" if state.self_version else "self_version")
+            # the set of referenced packages changes while watching
+            opts += ["add_import", "add_import"]
+            if added_imports:
+                opts.append("remove_import")
             op = r.choice(opts)
             if op == "remove_target":
                 t = r.choice(sorted(state.targets))
@@ -206,6 +216,17 @@ def make_case(seed, i):
                 t = r.choice(sorted(state.targets))
                 key = M.TARGET_KEYS[t]
                 state.targets[t] = dict(state.targets[t], **{key: "../out%d/%s" % (e + 2, t)})
+            elif op == "add_import":
+                k = len(added_imports) + 1
+                extra = M.Package("Extra%d" % k, "imp_extra%d" % k, {"extra.yml": [M.Record("ExtraRec%d" % k, (), [("id", M.Prim("int32")), ("label", M.Prim("string"))]),
+                                                                                 M.Enum("ExtraEnum%d" % k, None, [("one", 0), ("two", 1)])]})
+                state.imports.append(extra)
+                added_imports.append(extra.namespace)
+                op = "add_import %s" % extra.dirname
+            elif op == "remove_import":
+                nsx = added_imports.pop()
+                state.imports = [q for q in state.imports if q.namespace != nsx]
+                op = "remove_import %s" % nsx
             elif op == "self_version":
                 state.self_version = "snapshot"
             elif op == "drop_self_version":
